@@ -1,5 +1,7 @@
 """C01, C06, C08, C13, C18: the parser family (model MC_Parse, M1 call cases)."""
+import json
 from . import core
+from .objfam import spec_tables
 
 CFG = '''CONSTANTS
   Seed = %(seed)d
@@ -60,6 +62,16 @@ def parse_check(ctx):
         sb = ctx.harness('basesweep', prop=pid, aux=json.dumps(spec_tables(ctx)))
         viol += list(sb['violations'])
         extra['canonical_base_vectors'] = dict(sb['compared'], vectors=sb['evaluations'])
+    if pid in ('C01', 'C06'):
+        # v2: every combination of optional metrics; v3/v4: large seeded families of full assignments
+        sr = ctx.harness('rndsweep', prop=pid, aux=json.dumps(spec_tables(ctx)), n=1500000 if thorough else 150000)
+        viol += list(sr['violations'])
+        extra['assignment_sweep_vectors'] = sr['evaluations']
+    if pid in ('C01', 'C13'):
+        # the verdicts again, from many goroutines at once
+        sc = ctx.harness('concmatrix', prop=pid, n=400000 if thorough else 40000, **{'in': r['out']})
+        viol += list(sc['violations'])
+        extra['verdicts_under_concurrency'] = sc['evaluations']
     if pid in ('C01', 'C18'):
         # every 1-3 letter string that is not an abbreviation of the version (legal set from the spec)
         import json
